@@ -1049,6 +1049,9 @@ func (c *Cluster) doPropose(n *Node, a Action) bool {
 	var err error
 	m := &pb.Message{Type: pb.MsgProp.Enum(), From: new(n.id), Entries: ents}
 	if len(ents) == 1 && !a.B {
+		// NB: the client never touches the payload buffer again. raft does not
+		// promise to copy it: a follower forwards the proposal with the caller's
+		// slice still inside the message until the transport marshals it.
 		err = n.call("Propose", m, func() error { return n.rn.Propose(ents[0].GetData()) })
 	} else {
 		err = n.call("Propose", m, func() error { return n.rn.Step(m) })
